@@ -532,9 +532,8 @@ def oracle_C12(rs, n, ctx):
                     Em(q_)
                     Em(q_[0])
             except (IndexError, SystemError) as ex:
-                if isinstance(ex, SystemError) and not isinstance(ex.__cause__, IndexError):
-                    raise
-                R.violate("C12:evaluation-after-resample", f"IndexError evaluating a model after resample: {ex}", dict(rep, call="model(points) after resample"))
+                # (an IndexError raised inside the parallel list kernel surfaces as SystemError)
+                R.violate("C12:evaluation-after-resample", f"{type(ex).__name__} evaluating a model after resample: {ex}", dict(rep, call="model(points) after resample"))
             except Exception as ex:  # noqa: BLE001
                 R.bump("other_exception_after_resample")
         for p in pts:
